@@ -164,6 +164,33 @@ def run_check(prop, tier, replay=None):
             fails += f2
             tstats = {"states": tstats["states"] + t2["states"], "transitions": tstats["transitions"] + t2["transitions"],
                       "shards": tstats["shards"] + t2["shards"], "cmd": tstats["cmd"] or t2["cmd"]}
+    except core.Hang as ex:
+        # the code under test did not come back on some cases.  Confirmed on the first of them, alone and with twice
+        # the time, so that a loaded machine is not mistaken for a loop; a confirmed hang is a violation (no result is
+        # not the right result), an unconfirmed one a machinery failure.
+        first = ex.hung[0]["case"]
+        try:
+            again = core.run_cases(type(prop).runner, [first], timeout=2 * prop.timeout, procs=1)
+        except core.Hang:
+            again = None
+        except Machinery as ex2:
+            print("MACHINERY-FAILURE property=%s %s" % (pid, ex2))
+            core.cleanup_tmproot()
+            return 2
+        core.cleanup_tmproot()
+        if again is not None:
+            print("MACHINERY-FAILURE property=%s %d case(s) exceeded the time limit of %d s but the first one returns when run "
+                  "alone (machine overloaded?)" % (pid, len(ex.hung), prop.timeout))
+            return 2
+        group = None
+        if prop.group_key and first.get(prop.group_key) not in (None, "none"):
+            group = [c for c in cases if c.get(prop.group_key) == first.get(prop.group_key)]
+        path = core.write_replay(pid, {"property": pid, "clause": pid + ".terminates", "signature": pid + ".terminates",
+                                        "seed": core.SEED, "cases": group or [first], "record": None})
+        print("VIOLATION property=%s replay=%s" % (pid, path))
+        print("  clause=%s.terminates (the operation did not return within %d s, %d case(s) so far) case=%s" % (
+            pid, 2 * prop.timeout, len(ex.hung), json.dumps({k: v for k, v in first.items() if k != "clauses"}, default=str)[:600]))
+        return 1
     except Machinery as ex:
         print("MACHINERY-FAILURE property=%s %s" % (pid, ex))
         core.cleanup_tmproot()
